@@ -152,6 +152,28 @@ Theorem C08_refresh_variant4_sound : sound_statement refresh_v4.
 Proof. exact refresh_v4_sound. Qed.
 Print Assumptions C08_refresh_variant4_sound.
 
+(* ---- fold sites (commit e13e43d, `rewired=True`): after a fold has re-wired the node the old output annotation is
+   stale.  fold_statement f := forall rho ps out cr, operands_ok rho ps -> bcast_list (map snd ps) = Some cr ->
+   oshape_ok rho (f (map fst ps) out) cr  -- NO hypothesis about the old annotation `out`.
+   The rewired refresh (variant 4 + "give up => unknown") satisfies it; variant 4 itself does not (history: the Max output
+   of Reshape[2,3]-Max(a, constant without declared shape)-Reshape[6] kept [2,3] after the fold to Max(x:[6], c)) *)
+Theorem C08_refresh_rewired_fold_sound : fold_statement refresh_rw.
+Proof. exact refresh_rw_fold_sound. Qed.
+Print Assumptions C08_refresh_rewired_fold_sound.
+Theorem C08_refresh_variant4_fold_refuted : ~ fold_statement refresh_v4.
+Proof. exact refresh_v4_fold_refuted. Qed.
+Print Assumptions C08_refresh_variant4_fold_refuted.
+Theorem C08_fold_witness :
+  refresh_v4 (map fst fold_witness) (Some [DInt 2; DInt 3]) = Some [DInt 2; DInt 3]
+  /\ refresh_rw (map fst fold_witness) (Some [DInt 2; DInt 3]) = None
+  /\ bcast_list (map snd fold_witness) = Some [6]%nat.
+Proof. exact fold_witness_value. Qed.
+Print Assumptions C08_fold_witness.
+Theorem C08_castlike_refresh_fold_sound : forall rho o c rest out,
+  oshape_ok rho (op_shape o) c -> oshape_ok rho (castlike_refresh true (o :: rest) out) c.
+Proof. exact castlike_refresh_fold_sound. Qed.
+Print Assumptions C08_castlike_refresh_fold_sound.
+
 (* (V) the checker run on every converted export: for every node with an exact shape rule whose operand annotations
    are fully static, the declared (fully static) output shape is the rule's result *)
 Theorem C08_annot_consistent_sound : forall m, annot_consistent m = true ->
